@@ -57,7 +57,9 @@ CHECKS = {
         'thorough': {'shards': 16, 'timeout': 3600},
     },
     'C01': {
-        'pkg': 'internal/multiplex', 'test': 'TestVerif_C01', 'level': 'exploration',
+        'pkg': 'internal/multiplex', 'test': 'TestVerif_C01',
+        'parts': [{'pkg': 'internal/multiplex', 'test': 'TestVerif_C01'}, {'pkg': 'internal/server', 'test': 'TestVerif_C01Path', 'shards': 12}],
+        'level': 'exploration',
         'technique': 'runtime monitor: incremental generator-comparison oracle at the reading application over a hostile in-memory network (chosen arrival orders, segmentation, back-pressure) in a synctest bubble, forced addConn interleaving via hook, race detector',
         'level_text': 'Runs two real sessions over 1..8 TLSConn connections of the hostile network with 1..hundreds of concurrent bidirectional streams, all four methods, Write and ReadFrom paths and write sizes from 1 byte to several frames; '
                       'the harness chooses cross-connection arrival order (random merge, starved connection, newest first, LIFO) or lets goroutines race with jitter, connection adding during traffic and bounded windows; every byte read is compared with the tagged generator, '
@@ -70,7 +72,9 @@ CHECKS = {
         'thorough': {'shards': 16, 'timeout': 3600},
     },
     'C03': {
-        'pkg': 'internal/multiplex', 'test': 'TestVerif_C03', 'level': 'exploration',
+        'pkg': 'internal/multiplex', 'test': 'TestVerif_C03',
+        'parts': [{'pkg': 'internal/multiplex', 'test': 'TestVerif_C03'}, {'pkg': 'internal/server', 'test': 'TestVerif_C03Path', 'shards': 12}],
+        'level': 'exploration',
         'technique': 'runtime monitor: prefix/complete-then-error oracle on both ends of real session pairs, closing notice placed by a router that decodes the wire, parked readers decided by synctest quiescence plus 10 virtual minutes',
         'level_text': 'Two real sessions over 1..8 connections (and singleplex); one side writes B (0 bytes to several frames) and closes, or both close; the router recognises the closing record with the reference codec and delivers it before, between or after '
                       'the data on other connections; oracle: the non-closing side reads exactly B then the broken-stream error, closers read a prefix, no reader is parked after 10 virtual minutes, writes fail after a local or processed close, '
